@@ -10,8 +10,8 @@ CONSTANTS
   RootUid <- MC_RootUid
   TestUid <- MC_TestUid
   MaxOps = 5
-  Bugs <- MC_AllDefects
-  Known <- MC_AllDefects
+  Bugs <- D_11111
+  Known <- D_11111
   WithPersist = TRUE
   KeepHist = FALSE
   Wrap = 4
